@@ -258,3 +258,81 @@ func H05b_WideStruct() {
 }
 
 func H01b_WideStruct() { H05b_WideStruct() }
+
+// H05b_WideVarints: eleven 10-byte varints with two-byte tags: 132 bytes of
+// body although a one-byte-per-tag estimate stays under 128.
+func H05b_WideVarints() {
+	type wide struct {
+		A uint64 `plenc:"16"`
+		B uint64 `plenc:"17"`
+		C uint64 `plenc:"18"`
+		D uint64 `plenc:"19"`
+		E uint64 `plenc:"20"`
+		F uint64 `plenc:"21"`
+		G uint64 `plenc:"22"`
+		H uint64 `plenc:"23"`
+		I uint64 `plenc:"24"`
+		J uint64 `plenc:"25"`
+		K uint64 `plenc:"26"`
+	}
+	type outer struct {
+		W wide `plenc:"1"`
+		Z int  `plenc:"2"`
+	}
+	big := func(nm string) uint64 {
+		v := vrt.U64(nm)
+		vrt.Assume(v >= 1<<63)
+		return v
+	}
+	in := outer{W: wide{A: big("a"), B: big("b"), C: big("c"), D: big("d"), E: big("e"), F: big("f"), G: big("g"), H: big("h"), I: big("i"), J: big("j"), K: big("k")}, Z: smallSym("Z")}
+	wideCheck(&in, &in.W, func(o *outer) bool { return vrt.And(o.Z == in.Z, vrt.And(o.W.A == in.W.A, o.W.K == in.W.K)) }, 132)
+}
+
+// H05b_WideFloats: fourteen float64 fields with two-byte tags (140 bytes).
+func H05b_WideFloats() {
+	type wide struct {
+		A float64 `plenc:"16"`
+		B float64 `plenc:"17"`
+		C float64 `plenc:"18"`
+		D float64 `plenc:"19"`
+		E float64 `plenc:"20"`
+		F float64 `plenc:"21"`
+		G float64 `plenc:"22"`
+		H float64 `plenc:"23"`
+		I float64 `plenc:"24"`
+		J float64 `plenc:"25"`
+		K float64 `plenc:"26"`
+		L float64 `plenc:"27"`
+		M float64 `plenc:"28"`
+		N float64 `plenc:"29"`
+	}
+	type outer struct {
+		W wide `plenc:"1"`
+		Z int  `plenc:"2"`
+	}
+	in := outer{W: wide{1, 2, 3, 4, 5, 6, 7, 8, 9, 10, 11, 12, 13, 14}, Z: smallSym("Z")}
+	wideCheck(&in, &in.W, func(o *outer) bool { return vrt.And(o.Z == in.Z, o.W.N == 14 && o.W.A == 1) }, 140)
+}
+
+func wideCheck[O any, W any](in *O, w *W, same func(*O) bool, bodyLen int) {
+	p := newPlenc(cfgDef)
+	c, err := p.CodecForType(reflect.TypeOf(*w))
+	vrt.Assert("codec ok", err == nil)
+	if err != nil {
+		return
+	}
+	tag := []byte{0x0a}
+	ptr := unsafe.Pointer(w)
+	body := c.Append(nil, ptr, nil)
+	framed := c.Append(nil, ptr, tag)
+	vrt.Assert("body length", len(body) == bodyLen)
+	vrt.Assert("Size(nil) == len(Append)", c.Size(ptr, nil) == len(body))
+	vrt.Assert("Size(tag) == len(Append)", c.Size(ptr, tag) == len(framed))
+	exp := refVarint(append([]byte{}, tag...), uint64(len(body)))
+	vrt.Assert("framing: tag, length, body", vrt.BytesEq(framed, append(exp, body...)))
+	data, err := p.Marshal(nil, in)
+	vrt.Assert("marshal ok", err == nil)
+	var out O
+	vrt.Assert("unmarshal ok", p.Unmarshal(data, &out) == nil)
+	vrt.Assert("round trip", same(&out))
+}
